@@ -1,5 +1,6 @@
 """C17 Price helpers and order validation agree with the exchange's ladders — E3 gridx (complete
 enumeration of the finite grids against refs.py) + a slice through the real market.place_order."""
+import itertools
 import math
 from decimal import Decimal
 
@@ -470,6 +471,11 @@ def run(tier):
     r = _api_slice()
     rep.add_violations(r["violations"])
     nc += r["n"]
+    ph = [seq for k in (1, 2, 3) for seq in itertools.product(POLLS, repeat=k)]
+    for r in core.pmap(_poll_histories, [ph[i::8] for i in range(8)], chunk=1):
+        rep.add_violations(r["violations"])
+        nc += r["n"]
+        rep.count("account_poll_states", r["n"], mandatory=True)
     rep.clause_evals("C17.c", nc)
     rep.count("validation_accepted", acc, mandatory=True)
     rep.count("validation_refused", nc - acc, mandatory=True)
@@ -498,8 +504,87 @@ def run(tier):
     return rep.finish()
 
 
+POLLS = ("ok:SEK", "ok:GBP", "fail", "fail-details")
+
+
+def _poll_histories(seqs):
+    """the account poll worker (real worker.poll_account_balance -> BetfairClient.update_account_details) over every
+    history of successful / failing polls: the minimums applied by OrderValidation are those of the currency last
+    learnt - a failed poll must not make the client forget its currency (the GBP defaults are much lower)"""
+    import betfairlightweight
+    from betfairlightweight import BetfairError
+    from betfairlightweight.metadata import currency_parameters
+    from betfairlightweight.resources.accountresources import AccountDetails, AccountFunds
+    from flumine import FlumineSimulation, BaseStrategy, clients, worker
+    from flumine.controls.tradingcontrols import OrderValidation
+    from flumine.order.trade import Trade
+    from flumine.order.ordertype import LimitOrder, LimitOnCloseOrder
+
+    out = []
+    n = 0
+    for seq in seqs:
+        with core.owned_config(simulated=False):
+            api = betfairlightweight.APIClient("verif", "x", app_key="k", certs="/nonexistent")
+            bf = clients.BetfairClient(api)
+            from mc import livex
+
+            LiveFlumine, _ = livex.live_classes()
+            fw = LiveFlumine(bf)
+            st = BaseStrategy(market_filter={"markets": []}, name="val")
+            ctl = OrderValidation(fw)
+            state = {}
+
+            class _Acc:
+                def get_account_details(s_, *a, **k):
+                    if state["poll"].startswith("fail"):
+                        raise BetfairError("injected")
+                    return AccountDetails(currencyCode=state["poll"].split(":")[1], discountRate=0)
+
+                def get_account_funds(s_, *a, **k):
+                    if state["poll"] == "fail":
+                        raise BetfairError("injected")
+                    return AccountFunds(availableToBetBalance=1000.0, exposure=0.0, retainedCommission=0.0, exposureLimit=-10000.0, discountRate=0.0, pointsBalance=0, wallet="UK")
+
+            api.account = _Acc()
+            known = None
+            for k, poll in enumerate(seq):
+                state["poll"] = poll
+                worker.poll_account_balance({}, fw)
+                if poll.startswith("ok"):
+                    known = poll.split(":")[1]
+                cp = currency_parameters[known or "GBP"]
+                n += 1
+                case = dict(polls=list(seq[: k + 1]))
+                got = (bf.min_bet_size, bf.min_bet_payout, bf.min_bsp_liability)
+                exp = (cp["min_bet_size"], cp["min_bet_payout"], cp["min_bsp_liability"])
+                if got != exp:
+                    out.append(core.v("C17.c", ("BetfairClient", "minimums", "after-" + poll.split(":")[0], "forgotten" if known else "default"), "after polls %s the client applies minimums %s, its currency %s has %s" % (list(seq[: k + 1]), got, known or "GBP (none learnt)", exp), case))
+                    break
+                # and through the control: a stake / liability just under the currency's minimum is refused
+                for ot in ("L", "LOC"):
+                    tr = Trade("1.1", 1, 0, st)
+                    if ot == "L":
+                        o = tr.create_order("BACK", LimitOrder(2.0, round(cp["min_bet_size"] - 0.5, 2)))
+                    else:
+                        o = tr.create_order("LAY", LimitOnCloseOrder(round(cp["min_bsp_liability"] - 0.5, 2), 2.0))
+                    o.update_client(bf)
+                    try:
+                        ctl._validate(o, None)
+                        ok = True
+                    except Exception:
+                        ok = False
+                    if ok:
+                        out.append(core.v("C17.c", ("OrderValidation", "CLASSIC", ot, "accepted-invalid-after-poll"), "after polls %s an order under the %s minimum was let through" % (list(seq[: k + 1]), known or "GBP"), case))
+                        break
+    return dict(violations=out, n=n)
+
+
 def replay(rep):
     case = rep["case"]
+    if "polls" in case:
+        r = _poll_histories([tuple(case["polls"])])
+        print(r["violations"] or "no violation now")
+        return 1 if r["violations"] else 0
     print("replaying", rep["finding_key"], case)
     from flumine import utils
 
